@@ -1124,6 +1124,12 @@ pub fn run(cfg: &Cfg) -> Report {
     rep.extra.insert("sqrt_bulk_judged".into(), json!(judged));
   }
 
+  // ---------------------------------------------------------------- square roots next to perfect squares
+  near_square_family(&mut rep, &mut model, &mut rng, cfg, thorough);
+
+  // ---------------------------------------------------------------- the guards around the number library
+  feel_glue_family(&mut rep, &mut model, &mut rng, thorough);
+
   // ---------------------------------------------------------------- comparison
   let n_cmp = if thorough { 200_000 } else { 6_000 };
   let mut cmp_cases: Vec<(D, D)> = vec![];
@@ -1343,6 +1349,390 @@ pub fn run(cfg: &Cfg) -> Report {
   rep.exhaustive = false;
   rep.model_requests = model.requests;
   rep
+}
+
+/// The integer part (towards zero) of a finite number, when it is small enough to matter here; `None`: beyond +-10^9.
+fn trunc_int(d: &D) -> Option<i64> {
+  let mag: i64 = if d.is_zero() {
+    0
+  } else if d.exp >= 0 {
+    if d.coeff.len() as i32 + d.exp > 10 {
+      return None;
+    }
+    format!("{}{}", d.coeff, "0".repeat(d.exp as usize)).parse().ok()?
+  } else {
+    let f = (-d.exp) as usize;
+    if f >= d.coeff.len() {
+      0
+    } else {
+      let ip = &d.coeff[..d.coeff.len() - f];
+      if ip.len() > 10 {
+        return None;
+      }
+      ip.parse().ok()?
+    }
+  };
+  Some(if d.neg { -mag } else { mag })
+}
+
+/// `feelglue`: what builders.rs / core.rs do around the number library, against the model `FeelNum.*`
+/// (`Model/DecFeel.lean`, request `feelnum`) and against expectations written out here: `decimal(a, s)` with scales
+/// that are not integers (`2.7`, `-0.5`, `6176.9`, `-6111.5`), negative zeros, integers with folded zeros (`1E+1`),
+/// both ends of the range and the first values outside (null there: the integer part of the scale decides), huge
+/// scales; `/` and `modulo` by zeros of both signs and every exponent (null); `sqrt` of negative numbers (null), of
+/// zeros of both signs and every exponent (zero). Numbers are judged by the specification of the operation.
+fn feel_glue_family(rep: &mut Report, model: &mut Model, rng: &mut Rng, thorough: bool) {
+  let n = if thorough { 40_000 } else { 1_200 };
+  // (operation, a, b)
+  let mut cases: Vec<(&'static str, D, Option<D>)> = vec![];
+  let scales_fixed: Vec<D> = [
+    (false, "27", -1), (true, "5", -1), (true, "0", 0), (true, "0", -3), (false, "61769", -1), (false, "6176", 0), (false, "6177", 0), (false, "61770", -1), (true, "61115", -1), (true, "6111", 0),
+    (true, "6112", 0), (true, "61120", -1), (false, "1", 1), (false, "6", 3), (false, "7", 3), (false, "1", 10), (true, "1", 10), (false, "1", 6111), (false, "29999", -4), (false, "2", 0), (false, "200", -2),
+    (false, "1", -6176), (true, "9", -1), (false, "34", 0), (false, "339", -1),
+  ]
+  .iter()
+  .map(|(n, c, e)| D::new(*n, c, *e))
+  .collect();
+  for s in &scales_fixed {
+    for a in [D::new(false, "1", 0), D::new(true, "25", -1), D::new(false, "123456789", -4), D::new(false, "0", 0), D::new(false, "5", -7000 + 6176 - 6176 + 824)] {
+      let a = if a.exp < -6176 { D::new(false, "5", -6176) } else { a };
+      cases.push(("decimal", a, Some(s.clone())));
+    }
+  }
+  for _ in 0..n {
+    let class = CLASSES[rng.below(CLASSES.len() as u64) as usize];
+    let (a, b) = pair(rng, class);
+    match rng.below(6) {
+      0 | 1 | 2 => {
+        // a scale with a fraction, around an integer inside, at the ends of, or outside the range
+        let k: i64 = match rng.below(5) {
+          0 => rng.range(-6115, 6180),
+          1 => *rng.pick(&[-6112i64, -6111, -6110, 6175, 6176, 6177]),
+          2 => -(a.exp as i64) + rng.range(-3, 3),
+          _ => rng.range(-40, 40),
+        };
+        let frac_len = rng.below(4) as usize;
+        let frac = if frac_len == 0 { String::new() } else { digits(rng, frac_len) };
+        let s = D::new(k < 0 || (k == 0 && rng.chance(1, 2)), &format!("{}{}", k.abs(), frac), -(frac_len as i32));
+        let s = if frac_len == 0 && rng.chance(1, 3) { s.reduced() } else { s };
+        cases.push(("decimal", a, Some(s)));
+      }
+      3 => cases.push((*rng.pick(&["div", "modulo"]), a, Some(D::new(rng.chance(1, 2), "0", any_exp(rng))))),
+      4 => cases.push(("sqrt", D::new(true, &a.coeff, a.exp), None)),
+      _ => cases.push(("sqrt", D::new(rng.chance(1, 2), "0", any_exp(rng)), None)),
+    }
+    let _ = b;
+  }
+  let reqs: Vec<String> = cases
+    .iter()
+    .map(|(op, a, b)| match b {
+      Some(b) => format!("(c02 feelnum {} {} {})", op, a.wire(), b.wire()),
+      None => format!("(c02 feelnum {} {})", op, a.wire()),
+    })
+    .collect();
+  let answers = model.ask_batch(&reqs);
+  let mut jreqs: Vec<String> = vec![];
+  let mut jinfo: Vec<(String, String)> = vec![];
+  for (((op, a, b), req), ans) in cases.iter().zip(reqs.iter()).zip(answers.iter()) {
+    rep.case(req, true);
+    rep.hit(&format!("feelglue:{}", op));
+    let expr = match *op {
+      "decimal" => "decimal(a, b)",
+      "div" => "a / b",
+      "modulo" => "modulo(a, b)",
+      _ => "sqrt(a)",
+    };
+    let shown_input = format!("{} with a={} b={}", expr, a.to_sci_input(), b.as_ref().map(|b| b.to_sci_input()).unwrap_or_default());
+    let mut vars: Vec<(&str, Value)> = vec![];
+    match number_of(a) {
+      Some(n) => vars.push(("a", Value::Number(n))),
+      None => continue,
+    }
+    if let Some(b) = b {
+      match number_of(b) {
+        Some(n) => vars.push(("b", Value::Number(n))),
+        None => continue,
+      }
+    }
+    let got = match guarded(|| feel_eval(&vars, expr)) {
+      Ok(Ok(v)) => value_show(&v),
+      Ok(Err(e)) => {
+        rep.disagree(Kind::ImplVsSpec, op, &format!("FEEL {} fails to evaluate", op), &shown_input, &e, "a number or null");
+        continue;
+      }
+      Err(p) => {
+        rep.disagree(Kind::ImplVsSpec, op, &format!("FEEL {} panics", op), &shown_input, &p, "a number or null");
+        continue;
+      }
+    };
+    // the model of the glue
+    let m = Sexp::parse(ans).and_then(|s| s.as_list().and_then(|l| l.get(1).cloned()));
+    let m_shown = match &m {
+      Some(x) => match DecV::from_sexp(x) {
+        Some(v) => v.reduced().wire(),
+        None => x.to_string(),
+      },
+      None => ans.clone(),
+    };
+    if got != m_shown {
+      rep.disagree(Kind::ImplVsModel, op, &format!("FEEL {} differs from the model FeelNum.{}", op, op), &shown_input, &got, &m_shown);
+    }
+    // the written-out expectation
+    match *op {
+      "div" | "modulo" => {
+        if got != "null" {
+          rep.disagree(Kind::ImplVsSpec, op, &format!("FEEL {} by zero is not null", if *op == "div" { "division" } else { "modulo()" }), &shown_input, &got, "null");
+        }
+      }
+      "sqrt" => {
+        if a.is_zero() {
+          if !(got.starts_with("(n ") && got.contains(" 0 ")) {
+            rep.disagree(Kind::ImplVsSpec, op, "FEEL sqrt() of a zero is not zero", &shown_input, &got, "0");
+          }
+        } else if got != "null" {
+          rep.disagree(Kind::ImplVsSpec, op, "FEEL sqrt() of a negative number is not null", &shown_input, &got, "null");
+        }
+      }
+      _ => {
+        let s = b.as_ref().unwrap();
+        let k = trunc_int(s);
+        let inside = matches!(k, Some(k) if (-6111..=6176).contains(&k));
+        rep.hit(if inside { "feelglue:decimal:scale inside the range" } else { "feelglue:decimal:scale outside the range" });
+        if !inside {
+          if got != "null" {
+            rep.disagree(Kind::ImplVsSpec, "rescale", "FEEL decimal() accepts a scale outside the specified range -6111..6176", &shown_input, &got, "null");
+          }
+        } else if got == "null" {
+          rep.disagree(Kind::ImplVsSpec, "rescale", "FEEL decimal() is null for a scale inside the specified range -6111..6176", &shown_input, &got, "a number");
+        } else if got.starts_with("(n ") {
+          // a zero result is observed reduced (exponent 0): the specification speaks about the zero at the scale
+          let judged = match Sexp::parse(&got).as_ref().and_then(DecV::from_sexp) {
+            Some(DecV::Fin(z)) if z.is_zero() => D { neg: z.neg, coeff: "0".into(), exp: -(k.unwrap() as i32) }.wire(),
+            _ => got.clone(),
+          };
+          jreqs.push(format!("(c02 judgev rescale {} {} {})", a.wire(), k.unwrap(), judged));
+          jinfo.push((shown_input.clone(), got.clone()));
+        } else {
+          // NaN / Infinity inside a number: the known finding keeps its signature
+          let what = if got.starts_with("(inf") { "Infinity" } else { "NaN" };
+          rep.disagree(Kind::ImplVsSpec, "rescale", &format!("FEEL decimal() yields {} instead of null", what), &shown_input, &got, "a finite number or null");
+        }
+      }
+    }
+  }
+  let janswers = model.ask_batch(&jreqs);
+  for ((input, got), ans) in jinfo.iter().zip(janswers.iter()) {
+    if ans.contains("false") {
+      rep.disagree(Kind::ImplVsSpec, "rescale", "FEEL decimal() with a scale that is not a plain integer does not round half-even at the integer part of the scale", input, got, "the correctly rounded value");
+    }
+  }
+}
+
+/// Plain decimal text (the syntax of a FEEL literal) of a non-negative finite number.
+fn plain_literal(d: &D) -> String {
+  let len = d.coeff.len();
+  if d.exp >= 0 {
+    if d.is_zero() {
+      "0".to_string()
+    } else {
+      format!("{}{}", d.coeff, "0".repeat(d.exp as usize))
+    }
+  } else {
+    let f = (-d.exp) as usize;
+    if f < len {
+      format!("{}.{}", &d.coeff[..len - f], &d.coeff[len - f..])
+    } else {
+      format!("0.{}{}", "0".repeat(f - len), d.coeff)
+    }
+  }
+}
+
+const NEAR_SQUARE_SIGNATURE: &str = "sqrt next to a perfect square does not return the specified (correctly rounded) result";
+
+/// `nearsquare`: square roots of numbers whose coefficient is a perfect square `n*n` or one of its neighbours
+/// `n*n + d` (d = -3 .. 3, now and then up to +-2048: the spacing of binary floating point at 2^64), for roots `n` of
+/// every length 1 .. 17 digits (squares of 1 .. 34 digits), powers of two and ten and their neighbours, the roots
+/// next to 2^53, 2^63, 2^64 (where a detour through f64 / u64 / i64 loses digits); written as a whole number
+/// (exponent 0), as a whole number with fraction zeros (`n.000`), with folded trailing zeros, and at even and odd
+/// exponents over the whole range. Four observation points: `dec_square_root`, `FeelNumber::sqrt`, FEEL `sqrt(a)`
+/// with the operand bound to `a`, and FEEL `sqrt(<literal>)`. Oracle: the specification `SqrtSpec` (the correctly
+/// rounded root, stated through squares of scaled integers), decided by the driver on every answer of the
+/// implementation — the implementation's answers are never compared with each other only.
+fn near_square_family(rep: &mut Report, model: &mut Model, rng: &mut Rng, cfg: &Cfg, thorough: bool) {
+  let per_len = if thorough { 3_000 } else { 36 };
+  let limit: u128 = 10u128.pow(34);
+  let mut roots: Vec<u128> = vec![];
+  for k in 0..=56u32 {
+    let p = 1u128 << k;
+    roots.extend([p.saturating_sub(1), p, p + 1]);
+  }
+  for k in 0..=17u32 {
+    let p = 10u128.pow(k);
+    roots.extend([p.saturating_sub(1), p, p + 1, 3 * p, 3 * p + 1]);
+  }
+  // floor(sqrt(2^53)), floor(sqrt(2^63)), sqrt(2^64) and neighbours; floor(sqrt(10^33)); the largest root
+  roots.extend([94906265, 94906266, 94906267, 3037000499, 3037000500, 4294967295, 4294967296, 4294967297, 31622776601683793, 31622776601683794, 99999999999999999]);
+  for len in 1..=17usize {
+    for _ in 0..per_len {
+      roots.push(digits(rng, len).parse::<u128>().unwrap());
+    }
+  }
+  roots.retain(|r| *r >= 1 && *r * *r < limit);
+  // operands
+  let mut ops: Vec<(u128, i64, D)> = vec![];
+  let spell = |rng: &mut Rng, v: u128, kind: u64| -> D {
+    let text = v.to_string();
+    match kind {
+      // a whole number
+      0 => D::new(false, &text, 0),
+      // a whole number written with fraction zeros
+      1 => {
+        let room = 34 - text.len();
+        let z = if room == 0 { 0 } else { 1 + rng.below(room as u64) as usize };
+        D::new(false, &format!("{}{}", text, "0".repeat(z)), -(z as i32))
+      }
+      // an even exponent: the value is a perfect square's neighbour scaled by a power of a hundred
+      2 => D::new(false, &text, 2 * rng.range(-20, 20) as i32),
+      3 => D::new(false, &text, 2 * rng.range(-3070, 3040) as i32),
+      // an odd exponent
+      4 => D::new(false, &text, 2 * rng.range(-20, 20) as i32 + 1),
+      _ => D::new(false, &text, 2 * rng.range(-3070, 3040) as i32 + 1),
+    }
+  };
+  for r in &roots {
+    let sq = r * r;
+    let mut deltas: Vec<i64> = vec![-2, -1, 0, 1, 2];
+    for _ in 0..2 {
+      deltas.push(match rng.below(4) {
+        0 => *rng.pick(&[-3i64, 3]),
+        1 => rng.range(-2048, 2048),
+        2 => *rng.pick(&[-1024i64, -512, -256, -128, 128, 256, 512, 1024, 2047]),
+        _ => rng.range(-3, 3),
+      });
+    }
+    for (i, dl) in deltas.iter().enumerate() {
+      let v = sq as i128 + *dl as i128;
+      if v < 0 || v as u128 >= limit {
+        continue;
+      }
+      let v = v as u128;
+      let kind = if i < 5 && rng.chance(2, 3) { 0 } else { 1 + rng.below(5) };
+      let d = spell(rng, v, kind);
+      // a coefficient with trailing zeros also in its reduced spelling (what every computed number looks like)
+      if d.coeff.ends_with('0') && rng.chance(1, 2) {
+        ops.push((*r, *dl, d.reduced()));
+      }
+      ops.push((*r, *dl, d));
+    }
+  }
+  // ---- layer 1: dec_square_root, judged
+  let mut reqs: Vec<String> = vec![];
+  let mut raws: Vec<Option<D>> = vec![];
+  for (_, _, a) in &ops {
+    let raw = guarded(|| show_quad(&dec_square_root(&a.quad())));
+    match raw {
+      Ok(Some(DecV::Fin(r))) => {
+        reqs.push(format!("(c02 judge sqrt {} {})", a.wire(), r.wire()));
+        raws.push(Some(r));
+      }
+      Ok(other) => {
+        rep.disagree(Kind::ImplVsSpec, "sqrt", "sqrt of a non-negative number is not a finite number", &format!("dec_square_root({})", a.to_sci_input()), &format!("{:?}", other), "the correctly rounded root");
+        raws.push(None);
+      }
+      Err(p) => {
+        rep.disagree(Kind::ImplVsSpec, "sqrt", "dec_square_root panics", &a.to_sci_input(), &p, "a number");
+        raws.push(None);
+      }
+    }
+  }
+  let (answers, n_req) = ask_parallel(&cfg.driver, &reqs);
+  model.requests += n_req;
+  let mut raw_ok: Vec<bool> = vec![false; ops.len()];
+  {
+    let mut it = answers.iter();
+    for (i, (_, _, a)) in ops.iter().enumerate() {
+      if let Some(r) = &raws[i] {
+        let ans = it.next().map(|s| s.as_str()).unwrap_or("");
+        if ans.contains("true") {
+          raw_ok[i] = true;
+        } else if ans.contains("false") {
+          rep.disagree(Kind::ImplVsSpec, "sqrt", NEAR_SQUARE_SIGNATURE, &format!("dec_square_root({})", a.to_sci_input()), &r.to_sci_input(), "the correctly rounded root");
+        } else {
+          rep.disagree(Kind::ImplVsModel, "sqrt", "driver-error", &a.to_sci_input(), "", ans);
+        }
+      }
+    }
+  }
+  // ---- layers 2 and 3: FeelNumber::sqrt, FEEL sqrt(a), FEEL sqrt(literal); an answer that is not the reduced
+  // (already judged) dec.rs answer goes to the specification by itself
+  let mut jreqs: Vec<String> = vec![];
+  let mut jinfo: Vec<(usize, String, String)> = vec![];
+  for (i, (root, dl, a)) in ops.iter().enumerate() {
+    let key = format!("nearsquare {}", a.wire());
+    rep.case(&key, *dl != 0 || a.exp % 2 != 0);
+    rep.hit("op:sqrt-nearsquare");
+    rep.hit(&format!(
+      "nearsquare:{}:{}",
+      match dl.abs() {
+        0 => "square",
+        1 => "+-1",
+        2..=3 => "+-2..3",
+        _ => "+-4..2048",
+      },
+      if a.exp == 0 {
+        "whole"
+      } else if a.exp < 0 && a.coeff.ends_with('0') && a.exp.unsigned_abs() as usize <= a.coeff.len() - a.coeff.trim_end_matches('0').len() {
+        "whole with fraction zeros"
+      } else if a.exp % 2 == 0 {
+        "even exponent"
+      } else {
+        "odd exponent"
+      }
+    ));
+    rep.hit(&format!("nearsquare:root digits {}", root.to_string().len()));
+    let expected = raws[i].as_ref().filter(|_| raw_ok[i]).map(|r| r.reduced().wire());
+    let mut observed: Vec<(String, String)> = vec![];
+    match impl_feelnumber("sqrt", a, None, 0) {
+      Ok(f) => observed.push((format!("FeelNumber::sqrt({})", a.to_sci_input()), f)),
+      Err(p) => rep.disagree(Kind::ImplVsSpec, "sqrt", "FeelNumber sqrt panics", &a.to_sci_input(), &p, "a number"),
+    }
+    if let Some(va) = number_of(a) {
+      match guarded(|| feel_eval(&[("a", Value::Number(va))], "sqrt(a)")) {
+        Ok(Ok(v)) => observed.push((format!("FEEL sqrt(a) with a={}", a.to_sci_input()), value_show(&v))),
+        Ok(Err(e)) => rep.disagree(Kind::ImplVsSpec, "sqrt", "FEEL sqrt fails to evaluate", &a.to_sci_input(), &e, "a number"),
+        Err(p) => rep.disagree(Kind::ImplVsSpec, "sqrt", "FEEL sqrt panics", &a.to_sci_input(), &p, "a number"),
+      }
+    }
+    if a.exp.abs() <= 60 {
+      let text = format!("sqrt({})", plain_literal(a));
+      match guarded(|| feel_eval(&[], &text)) {
+        Ok(Ok(v)) => observed.push((format!("FEEL {}", text), value_show(&v))),
+        Ok(Err(e)) => rep.disagree(Kind::ImplVsSpec, "sqrt", "FEEL sqrt fails to evaluate", &text, &e, "a number"),
+        Err(p) => rep.disagree(Kind::ImplVsSpec, "sqrt", "FEEL sqrt panics", &text, &p, "a number"),
+      }
+    }
+    for (what, got) in observed {
+      if Some(&got) == expected.as_ref() {
+        continue;
+      }
+      if got.starts_with("(n ") {
+        jreqs.push(format!("(c02 judgev sqrt {} {})", a.wire(), got));
+        jinfo.push((i, what, got));
+      } else {
+        rep.disagree(Kind::ImplVsSpec, "sqrt", "sqrt of a non-negative number is not a finite number", &what, &got, "the correctly rounded root");
+      }
+    }
+  }
+  let janswers = model.ask_batch(&jreqs);
+  for ((_, what, got), ans) in jinfo.iter().zip(janswers.iter()) {
+    if ans.contains("false") {
+      rep.disagree(Kind::ImplVsSpec, "sqrt", NEAR_SQUARE_SIGNATURE, what, got, "the correctly rounded root");
+    } else if !ans.contains("true") {
+      rep.disagree(Kind::ImplVsModel, "sqrt", "driver-error", what, got, ans);
+    }
+  }
+  rep.extra.insert("nearsquare_operands".into(), json!(ops.len()));
+  rep.extra.insert("nearsquare_judged_separately".into(), json!(jinfo.len()));
 }
 
 /// A case of the main run whose sequential answer is settled (equal to the model's, which its specification accepts).
